@@ -356,6 +356,23 @@ theorem C02_source_encoder_dictionary (g : GoSrc.T_encoderDict) (m : Ring.EDict)
    (GoSrcP.encoderDict_ByteAt_ring g m hb hh hhl dist).2.2, (GoSrcP.buffer_Available_ring g.buf m.buf hb).1,
    (GoSrcP.buffer_Available_ring g.buf m.buf hb).2⟩
 
+/-- composition: the write operations from the source on an encoder dictionary given at ring level (its `ByteAt` / `Pos`
+    from the source = the ring model's): context = position and bytes of the ring model `m` -/
+theorem C02_source_write_operations_on_ring (fuel : Nat) (g : GoSrc.T_encoder) (m : Ring.EDict) (s : St) (tbl : Tbl) (p : Props)
+    (e : Rc.Enc) (Lim : Nat)
+    (sr : GoSrcP.StRel g.state s tbl p) (rel : GoSrcP.EncRel g.re e Lim) (rest : e.Rest)
+    (hb : GoSrcP.BufRel g.dict.buf m.buf) (hh : g.dict.head.toNat = m.head) (hhl : m.head < 2 ^ 62)
+    (hcl : e.cacheLen + 400 < 2 ^ 62) (hL : Lim < 2 ^ 63) (hfuel : e.cacheLen + 400 ≤ fuel) (l : GoSrc.T_lit) :
+    match GoSrcP.encPathL Lim tbl e (opEnc (GoSrcP.ctxOf p s m.head (fun k => (m.byteAt k).toNat)) (.lit l.b.toNat)) with
+    | none => ∃ g', GoSrc.encoder_writeLiteral fuel g l = Go.Res.ok (Go.Err.named "ErrLimit", g')
+    | some (tbl', e') =>
+      ∃ g', GoSrc.encoder_writeLiteral fuel g l = Go.Res.ok (Go.Err.nil, g')
+        ∧ GoSrcP.StRel g'.state (s.apply (.lit l.b.toNat)) tbl' p ∧ GoSrcP.EncRel g'.re e' Lim ∧ e'.Rest ∧ g'.dict = g.dict :=
+  (C02_source_write_operations fuel g s tbl p e Lim m.head (fun k => (m.byteAt k).toNat) sr rel rest
+    (GoSrcP.encoderDict_ByteAt_ring g.dict m hb hh hhl 0#64).2.1 hhl
+    (fun dist => (GoSrcP.encoderDict_ByteAt_ring g.dict m hb hh hhl dist).1)
+    (fun k => (m.byteAt k).toNat_lt) hcl hL hfuel).1 l
+
 /-- the checked path is the codec's path whenever the limit is not hit (`encPath` of Codec/LzmaDec.lean) -/
 theorem C02_source_checked_path (L : Nat) (t : Tbl) (e : Rc.Enc) (π : Path) (t' : Tbl) (e' : Rc.Enc)
     (h : GoSrcP.encPathL L t e π = some (t', e')) : encPath t e π = (t', e') :=
